@@ -650,6 +650,9 @@ func (in *Interp) global(g *ssa.Global) *value {
 			return p
 		}
 	}
+	if pkg != nil && g.Name() != "init$guard" && (!in.w.initOK(pkg) || pkg.Pkg.Path() == "github.com/openconfig/gribigo/aft") {
+		in.w.stubsHit["uninitialised-global:"+pkg.Pkg.Path()+"."+g.Name()]++
+	}
 	cell := zero(mustDeref(g.Type()))
 	p := &cell
 	in.globals[g] = p
